@@ -96,6 +96,26 @@ CLAIMED['C03'] = ('Units, Gen_C03',
     'column. Quick tier runs all accepted calls and a quarter of the refused ones.',
     'DESIGN.md 3.2, 4 C03')
 
+CLAIMED['C06'] = ('Units (ToMEF), Gen_C06',
+    'TLA+ pairing table of to_mef (curve i belongs to sc_channels[i]; coverage and count checks); environment actions '
+    'enumerate listings, spellings, curve counts and requests; each scenario executed with distinct affine curves',
+    'Exhaustive over every ordering/spelling of sc_channels, curve counts n-1,n,n+1 and every request (none, scalar, all '
+    'ordered subsets, uncovered channels) on a sample, a plain array and the partial callable of get_transform_fxn: '
+    'refusal vs conversion, the curve on each column (bitwise), untouched columns, ranges, metadata, input not mutated.',
+    'Trusted: TLC, value parser. Negative positions are not enumerated (other form).',
+    'DESIGN.md 3.2, 4 C06')
+CLAIMED['C07'] = ('RangeLaw, Units, Trace_C07',
+    'mechanism model RangeLaw (events and limits through the same increasing map; skew parameter for the last-place '
+    'deviation) checked by TLC; recorded conversions of hypothesis-drawn amplifier/curve parameters validated by a trace '
+    'spec that requires range term = unit term and the logged bitwise-limit and mask-equality observations',
+    'TLC proves RangeFollows / GateCommutes on the model and shows the counterexample for a last-place skew; the trace '
+    'direction sweeps (a0,a1,r,gain) and (m,b) on integer samples with events at 0,1,R-2,R-1 in every channel and checks, '
+    'per draw, bitwise equality of each converted limit with the value of the event that sat there and equality of the '
+    'default high_low masks before/after conversion.',
+    'Trusted: TLC, value parser; the bitwise facts are direct equality observations on library outputs (no numeric oracle). '
+    'Sampling (400 draws quick, 20000 thorough), not exhaustive.',
+    'DESIGN.md 3.2, 4 C07')
+
 NOT_APPLICABLE = {
     'C09': 'continuum numerics only (L-BFGS-B recovery of real parameters, real-analytic identities of closures): no '
            'state, history or case analysis for a TLA+ specification to enumerate; discrete fragment (Fit refuses <3 '
